@@ -44,9 +44,9 @@ def dfs_lib():
         _lib["a"] = a
         return a
 
-def resolve_unwind(cfile, rules, default):
+def resolve_unwind(cfile, rules, default, cdefines=()):
     """rules: list of (substring of loop id, bound); first match wins."""
-    r = sh(["cbmc", "-I", STUBS, cfile, "--show-loops"], timeout=300)
+    r = sh(["cbmc", "-I", STUBS] + [x for d in cdefines for x in ("-D", d)] + [cfile, "--show-loops"], timeout=300)
     uw = {}
     for m in re.finditer(r"^Loop ([^\s:]+):", r["out"], re.M):
         lid = m.group(1)
@@ -56,7 +56,7 @@ def resolve_unwind(cfile, rules, default):
     return uw
 
 def cxx_ob(pid, oid, wrapper, entry, what, bounds, functions, unwind=2, unwindset=None, defines=("NDEBUG",), havoc=(),
-           weight_gb=3, timeout=900, stubs=(), extra=(), known=None, object_bits=12, noop_re=(), replace=(), clang_extra=()):
+           weight_gb=3, timeout=900, stubs=(), extra=(), known=None, object_bits=12, noop_re=(), replace=(), clang_extra=(), cdefines=()):
     """One CBMC query on one extern "C" harness function of a wrapper TU."""
     full = "%s.%s" % (pid, oid)
     def build():
@@ -66,17 +66,17 @@ def cxx_ob(pid, oid, wrapper, entry, what, bounds, functions, unwind=2, unwindse
         cmd = [sys.executable, os.path.join(ROOT, "tools", "ir2c.py"), ll, "-o", cfile, "--entry", entry]
         for s in STUB_SRC: cmd += ["--stub-src", s]
         if havoc: cmd += ["--havoc", ",".join(havoc)]
-        for rx in noop_re: cmd += ["--noop-re", rx]
+        for rx in list(noop_re) + [x for x in os.environ.get("VF_DEBUG_EXTRA_NOOP", "").split(",") if x]: cmd += ["--noop-re", rx]   # env: debugging aid only
         for rp in replace: cmd += ["--replace", rp]
         r = sh(cmd, timeout=600)
         if r["rc"] != 0: raise RuntimeError("NOT-ENCODED by ir2c: " + r["out"][-2000:])
         ex = ["--max-field-sensitivity-array-size", "300"] + list(extra)   # 25x smaller formulas on 256-byte sector buffers (measured)
         if object_bits: ex += ["--object-bits", str(object_bits)]
-        uw = resolve_unwind(cfile, unwindset or [], unwind)
+        uw = resolve_unwind(cfile, unwindset or [], unwind, cdefines)
         # LLVM hoists address computations above the branches that guard their use (legal: an out-of-range
         # `getelementptr inbounds` is poison, not UB, until dereferenced), so CBMC's check on pointer ARITHMETIC
         # raises alarms no sanitizer confirms; dereferences stay checked (--pointer-check, --bounds-check).
-        c = cbmc_cmd([cfile], "vf_main_" + entry, uw, [], [STUBS], unwind=unwind, extra=ex, no_checks=("--pointer-overflow-check",))
+        c = cbmc_cmd([cfile], "vf_main_" + entry, uw, list(cdefines), [STUBS], unwind=unwind, extra=ex, no_checks=("--pointer-overflow-check",))
         rt = os.path.join(ROOT, "harness", "c", "native_rt.c")
         native = dict(cc="g++", flags=["-std=c++17", "-DUSE_ZLIB", "-x", "c++"],
                       files=[os.path.join(HX, wrapper), os.path.join(HX, "vf_native.cc"), rt],
